@@ -329,6 +329,20 @@ Theorem C06_store_consistent : forall (H compress : bytes -> bytes) decompress,
 Proof. exact store_ok_from_empty. Qed.
 Print Assumptions C06_store_consistent.
 
+(** no save loses or replaces an object saved before: if the hash is injective, every block /
+    block index / table / commit written by ANY sequence of saves is, after the whole sequence,
+    still stored under its key with the value written (identical content maps to the same key
+    and the same value; the table index / table profile kinds live under other prefixes).
+    The table index and the table profile are keyed by their table and are legitimately
+    replaced by a later save for the same table, hence [sop_hashed].  The Go counterpart that
+    is NOT logic - a badger transaction that overflows and rolls over inside Txn.Set - is
+    covered by the correspondence batch 'volume' (see pylib/propcfg/C06.py). *)
+Theorem C06_saved_objects_persist : forall (H compress : bytes -> bytes),
+  (forall a b, H a = H b -> a = b) -> forall ops s o, In o ops -> sop_hashed o = true ->
+  sget (sop_key H o) (apply_sops H compress s ops) = Some (sop_val compress o).
+Proof. exact saved_objects_persist. Qed.
+Print Assumptions C06_saved_objects_persist.
+
 (** the six key prefixes are pairwise not prefixes of one another (computed on the
     literals), so FilterKey of one kind never returns a key of another kind *)
 Theorem C06_prefixes_disjoint : forall p q x,
